@@ -964,6 +964,9 @@ func returnsOf(fn *ssa.Function) []*ssa.Return {
 	var out []*ssa.Return
 	eachInstr(fn, func(in ssa.Instruction) {
 		if r, ok := in.(*ssa.Return); ok {
+			if !moduleUsesRecover && fn.Recover != nil && in.Block() == fn.Recover {
+				return // dead: nothing recovers
+			}
 			out = append(out, r)
 		}
 	})
@@ -1239,10 +1242,14 @@ func returnsLoadOf(fn *ssa.Function, f *types.Var) (ssa.Value, bool) {
 	}
 	var v ssa.Value
 	for _, r := range returnsOf(fn) {
-		if len(r.Results) != 1 || !loadOfField(r.Results[0], f) {
+		if len(r.Results) != 1 {
 			return nil, false
 		}
-		v = stripConv(r.Results[0])
+		res := resolveCell(r.Results[0]) // a defer spills the result into a local
+		if !loadOfField(res, f) {
+			return nil, false
+		}
+		v = stripConv(res)
 	}
 	return v, v != nil
 }
@@ -1312,4 +1319,96 @@ func allCalls(fn *ssa.Function) []*ssa.Call {
 		}
 	})
 	return out
+}
+
+// valKey identifies a value up to helper-parameter substitution: the base value (a parameter of the top function, a call,
+// a constant ...) plus the field path loaded from it. `slot.Length` read inside a helper that received `slot` as an
+// argument and `slot.Length` read in the caller have the same key.
+type valKey struct {
+	base ssa.Value
+	path string
+}
+
+func keyOf(v ssa.Value, subst map[ssa.Value]ssa.Value) valKey {
+	path := ""
+	for i := 0; i < 12; i++ {
+		v = stripConv(v)
+		if r, ok := subst[v]; ok {
+			v = stripConv(r)
+		}
+		v = resolveCell(v)
+		if r, ok := subst[v]; ok {
+			v = resolveCell(stripConv(r))
+		}
+		u, ok := v.(*ssa.UnOp)
+		if !ok || u.Op != token.MUL {
+			break
+		}
+		fa, ok := u.X.(*ssa.FieldAddr)
+		if !ok {
+			break
+		}
+		path = fmt.Sprintf(".%d", fa.Field) + path
+		if al, isAlloc := fa.X.(*ssa.Alloc); isAlloc {
+			st := singleStore(al)
+			if st == nil {
+				return valKey{al, path}
+			}
+			v = st.Val
+			continue
+		}
+		v = fa.X
+	}
+	if k, ok := constInt(v); ok {
+		return valKey{nil, fmt.Sprint(k) + path}
+	}
+	return valKey{v, path}
+}
+
+func (d deepStore) key(v ssa.Value) valKey { return keyOf(v, d.subst) }
+
+// postQueueFields finds the queue of posted handlers and the mutex that guards it by their shape rather than by name:
+// the `[]func()` field of a struct of package internal and the sync.Mutex field of the same struct (poller.posts and
+// poller.lck on the pinned tree; a queue type of its own after a refactoring).
+func (p *Prog) postQueueFields() (posts, lck *types.Var) {
+	if f := p.TryField("internal", "poller", "posts"); f != nil {
+		if sl, ok := f.Type().Underlying().(*types.Slice); ok {
+			if sig, ok := sl.Elem().Underlying().(*types.Signature); ok && sig.Params().Len() == 0 && sig.Results().Len() == 0 {
+				return f, p.Field("internal", "poller", "lck")
+			}
+		}
+	}
+	sc := p.pkg("internal").Types.Scope()
+	var found []*types.Var
+	var locks []*types.Var
+	for _, name := range sc.Names() {
+		tn, ok := sc.Lookup(name).(*types.TypeName)
+		if !ok {
+			continue
+		}
+		st, ok := tn.Type().Underlying().(*types.Struct)
+		if !ok {
+			continue
+		}
+		var q, m *types.Var
+		for i := 0; i < st.NumFields(); i++ {
+			f := st.Field(i)
+			if sl, ok := f.Type().Underlying().(*types.Slice); ok {
+				if sig, ok := sl.Elem().Underlying().(*types.Signature); ok && sig.Params().Len() == 0 && sig.Results().Len() == 0 {
+					q = f
+				}
+			}
+			if nt, ok := f.Type().(*types.Named); ok && nt.Obj().Pkg() != nil && nt.Obj().Pkg().Path() == "sync" && nt.Obj().Name() == "Mutex" {
+				m = f
+			}
+		}
+		if q != nil && m != nil {
+			found = append(found, q)
+			locks = append(locks, m)
+		}
+	}
+	if len(found) != 1 {
+		infra("anchor: the queue of posted handlers (a []func() field next to a sync.Mutex in package internal) was not found exactly once (%d)", len(found))
+	}
+	return found[0], locks[0]
 }
